@@ -392,6 +392,13 @@ def det_jobs(tier, seed):
             # the same key again on ONE environment object that is re-seeded and reset between repetitions
             jobs.append(dict(kind="traj", key="traj:%s:%s:%d" % (n, fo, seed), scenario=("bench_yaml", n), seed=seed,
                              steps=300 if tier == "quick" else 1500, fo=fo, repeat=3, reuse=True))
+            # ... and on an environment that was once seeded the Gymnasium way (reset(seed=..)): the global seed
+            # still decides
+            jobs.append(dict(kind="traj", key="traj:%s:%s:%d" % (n, fo, seed), scenario=("bench_yaml", n), seed=seed,
+                             steps=300 if tier == "quick" else 1500, fo=fo, repeat=2, reuse=True, gymseed=77))
+            # seeded generative steps repeated on one environment without a reset in between
+            jobs.append(dict(kind="traj", key="genseq:%s:%s:%d" % (n, fo, seed), scenario=("bench_yaml", n), seed=seed,
+                             steps=40, fo=fo, repeat=3, reuse=True, genseq=True))
     for n in ["small-gen", "medium-gen"]:
         jobs.append(dict(kind="traj", key="traj:%s:%d" % (n, seed), scenario=("gen", bench_params(n, seed)),
                          seed=seed + 1, steps=300, repeat=2))
